@@ -132,6 +132,12 @@ structure Mon where
   live : List (Nat × Addr) := []
   /-- the implementation reported TRANSIENT_FAILURE for connection failures and no SubConn became READY since -/
   sticky : Bool := false
+  /-- number of SubConns created when `sticky` was last set / now -/
+  stickySerial : Nat := 0
+  created : Nat := 0
+  /-- SubConns with a health listener registered since they last became READY (also shut-down ones:
+      a queued health update may still be delivered) -/
+  hreg : List Nat := []
   /-- address-list positions on which the implementation requested a connection in the running pass -/
   passLog : List Nat := []
 
@@ -154,7 +160,8 @@ def monitor (d : DSt) (s' : St) (op : Op) (impl : String) : Mon × String :=
     -- the channel-side fact carried by the op itself
     let wasLive (id : Nat) : Bool := m.live.any (·.1 = id)
     let m := match op with
-      | .sc id x _ => { m with delivered := setDelivered m.delivered id x }
+      | .sc id x _ => { m with delivered := setDelivered m.delivered id x,
+                               hreg := if x == .ready then m.hreg else m.hreg.filter (· ≠ id) }
       | _ => m
     -- a SubConn became READY (or connected and dropped: CONNECTING→IDLE, issue 7862) / the list was emptied
     let clears : Bool := match op with
@@ -171,9 +178,9 @@ def monitor (d : DSt) (s' : St) (op : Op) (impl : String) : Mon × String :=
       | [] => (m, none)
       | e :: t =>
         match e with
-        | .newSc id a => go t { m with live := m.live ++ [(id, a)] } inPass
+        | .newSc id a => go t { m with live := m.live ++ [(id, a)], created := max m.created id } inPass
         | .sd id => go t { m with live := m.live.filter (·.1 ≠ id) } inPass
-        | .hl _ => go t m inPass
+        | .hl id => go t { m with hreg := id :: m.hreg.filter (· ≠ id) } inPass
         | .connect id =>
           if !inPass then go t m inPass else
           match m.live.find? (·.1 = id) with
@@ -190,15 +197,21 @@ def monitor (d : DSt) (s' : St) (op : Op) (impl : String) : Mon × String :=
             | .ready id =>
               if st != .ready then some "VIOL a SubConn picker with a state other than READY"
               else if lookup m.delivered id != .ready then some s!"VIOL READY reported with SubConn {id} whose latest state is {(lookup m.delivered id).letter}"
+              else if !(m.live.any (·.1 = id)) then some s!"VIOL READY reported with SubConn {id} which was shut down"
               else none
             | _ => if st == .ready then some "VIOL READY reported without a SubConn" else none
           match bad with
           | some b => (m, some b)
           | none =>
             if m.sticky && (st == .connecting || st == .idle) then
-              (m, some s!"VIOL {if st == .connecting then "CONNECTING" else "IDLE"} reported while in sticky TRANSIENT_FAILURE (no SubConn became READY)")
+              -- who caused it: a SubConn created after the failure report (an address the resolver added) or an old one
+              let who := match op with
+                | .sc id _ _ => if id > m.stickySerial then s!" on a report of SubConn {id}, created for an address added after the failure"
+                                else s!" on a report of SubConn {id}, which existed when the failure was reported"
+                | _ => ""
+              (m, some s!"VIOL {if st == .connecting then "CONNECTING" else "IDLE"} reported while in sticky TRANSIENT_FAILURE (no SubConn became READY){who}")
             else
-              let m := match p with | .connErr _ => { m with sticky := true } | _ => m
+              let m := match p with | .connErr _ => { m with sticky := true, stickySerial := if m.sticky then m.stickySerial else m.created } | _ => m
               -- a TRANSIENT_FAILURE report ends the first pass: later Connects are re-connections
               go t m (inPass && st != .tf)
     let (m, v) := go io.evs m inPass0
@@ -228,7 +241,7 @@ def step (d : DSt) (fs : List String) (impl : String) : DSt × String × String 
     --  * nothing is called on a balancer after Close (the channel drops it together with its picker)
     let ok : Bool := d.s.state != .shutdown && match op with
       | .sc id x _ => decide (1 ≤ id ∧ id ≤ d.s.scSerial) && (x != .shutdown || (activeSC d.s id).isNone)
-      | .health id _ _ => (activeSC d.s id).any fun sc => sc.healthReg && sc.raw == .ready
+      | .health id _ _ => d.m.hreg.contains id && lookup d.m.delivered id == .ready
       | _ => true
     if !ok then (d, "bad-op", "-") else
     let (s', out) := PickFirst.step d.s op
